@@ -17,7 +17,9 @@ Definition parseG := parse bop uop pop fnid bin_rule bin_tok bin_rassoc pre_rule
 Definition parses_toG := parses_to bop uop pop fnid bin_rule bin_tok bin_rassoc pre_rule post_tok post_rassoc ite_rule q_tok q_rassoc
                          idx_tok call_tok idx_rassoc call_rassoc.
 Definition flatG (full : bool) := flat bop uop pop fnid bin_rule bin_tok bin_rassoc pre_rule post_tok post_rassoc ite_rule q_tok q_rassoc
-                         idx_tok call_tok idx_rassoc call_rassoc full.
+                         idx_tok call_tok idx_rassoc call_rassoc (fun _ _ => full) (fun _ _ => full) (fun _ => false).
+Definition flatX := flat bop uop pop fnid bin_rule bin_tok bin_rassoc pre_rule post_tok post_rassoc ite_rule q_tok q_rassoc
+                         idx_tok call_tok idx_rassoc call_rassoc.
 Definition rule_shiftsG := rule_shifts bop uop pop fnid bin_tok bin_rassoc post_tok post_rassoc q_tok q_rassoc
                          idx_tok call_tok idx_rassoc call_rassoc.
 
@@ -81,4 +83,4 @@ Definition flatR (full : bool) :=
   flat bop uop pop fnid
     (fun o => ref_num (ref_infix_rule_sym (bin_name o))) (fun o => ref_num (bin_name o)) (fun o => ref_ra (bin_name o))
     (fun u => ref_num (ref_prefix_rule_sym (pre_name u))) (fun p => ref_num (post_name p)) (fun p => ref_ra (post_name p))
-    (ref_num ref_ite_rule_sym) (ref_num "'?'") (ref_ra "'?'") (ref_num "'['") (ref_num "'('") (ref_ra "'['") (ref_ra "'('") full.
+    (ref_num ref_ite_rule_sym) (ref_num "'?'") (ref_ra "'?'") (ref_num "'['") (ref_num "'('") (ref_ra "'['") (ref_ra "'('") (fun _ _ => full) (fun _ _ => full) (fun _ => false).
